@@ -130,6 +130,44 @@ def infeasible_margin(r, eps_exp=None):
     return lp
 
 
+def tiny_cut(r):
+    """the vertex the floating-point simplex will stop at is cut off by 10^-e: feasible LPs whose optimum differs from the
+    "double" optimum by less than any tolerance (near-degenerate vertices, rows with basic slacks that are exactly violated)"""
+    n = r.randint(2, 5)
+    kind = r.choice(["box_sum", "box_sum_range", "linked_eq", "two_cuts"])
+    e = r.choice([10, 11, 12, 13, 15, 20, 30])
+    eps = F(1, 10 ** e)
+    lp = _mk(0, n, True)
+    for j in range(n):
+        lp["lo"][j], lp["up"][j] = F(0), F(1)
+        lp["obj"][j] = F(r.choice([1, 1, 2, 3]))
+
+    def add(ent, sense, rhs, rng=F(0)):
+        lp["A"].append(sorted(ent)); lp["sense"].append(sense); lp["rhs"].append(rhs); lp["range"].append(rng)
+        lp["rname"].append("t%d" % (lp["m"] + 1)); lp["m"] += 1
+    allj = [(j, F(1)) for j in range(n)]
+    if kind == "box_sum":
+        for j in range(n):
+            if r.random() < .6:
+                add([(j, F(1))], "L", F(1))
+        add(allj, "L", F(n) - eps)
+    elif kind == "box_sum_range":
+        add(allj, "R", F(0), F(n) - eps)
+    elif kind == "linked_eq":
+        lp["lo"][1], lp["up"][1] = NINF, INF
+        lp["obj"] = [F(1)] + [F(0)] * (n - 1)
+        add([(0, F(1)), (1, F(-1))], "E", F(0))
+        add([(1, F(1))], "L", F(1) - eps)
+    else:
+        js = r.sample(range(n), 2)
+        add([(j, F(1)) for j in js], "L", F(2) - eps)
+        add(allj, "L", F(n) - eps / 3)
+    if r.random() < .3:         # minimise the negated objective instead
+        lp["obj"] = [-v for v in lp["obj"]]
+        lp["max"] = False
+    return lp
+
+
 def face_only(r):
     """feasible only on a lower dimensional face: a <= s and a >= s for the same expression"""
     lp = feasible_bounded(r, r.randint(1, 4), r.randint(2, 5))
@@ -283,7 +321,7 @@ def fixedcols(r):
     return lp
 
 
-FAMILIES = ["boxed", "fixedcols", "random", "feasible", "degenerate", "infeasible_margin", "face_only", "unbounded", "special", "klee_minty", "beale"]
+FAMILIES = ["boxed", "fixedcols", "random", "feasible", "degenerate", "infeasible_margin", "face_only", "unbounded", "special", "klee_minty", "beale", "tiny_cut"]
 
 
 def family(name, r):
@@ -301,6 +339,8 @@ def family(name, r):
         return infeasible_margin(r)
     if name == "face_only":
         return face_only(r)
+    if name == "tiny_cut":
+        return tiny_cut(r)
     if name == "unbounded":
         return unbounded(r)
     if name == "special":
